@@ -582,6 +582,8 @@ func (fr *Frame) appendOp(st *State, c *ssa.CallCommon, v ssa.Value) Val {
 		r.assume(st, eq(app("s_len", res.S), app("+", app("s_len", a.S), app("strlen", b.S))))
 		return res
 	}
+	a.S = r.constOf("appa", SSlice, a.S)
+	b.S = r.constOf("appb", SSlice, b.S)
 	la, lb := app("s_len", a.S), app("s_len", b.S)
 	ref := r.alloc(st, "append")
 	newLen := r.define("applen", SInt, app("+", la, lb))
@@ -596,19 +598,48 @@ func (fr *Frame) appendOp(st *State, c *ssa.CallCommon, v ssa.Value) Val {
 	}
 	name, h := r.elemHeap(st, et)
 	es := s.sortOf(et)
-	arr := r.declare("apparr", "(Array Int "+es+")")
+	asort := "(Array Int " + es + ")"
+	// contents of the destination before the appended part: the source array itself when the slice starts
+	// at offset 0 (the usual case for slices grown by append), a shifted copy otherwise
+	base := app("select", h, app("s_arr", a.S))
+	arr0 := r.declare("apparr0", asort)
+	r.assume(st, implies(eq(app("s_off", a.S), "0"), eq(arr0, base)))
 	q := r.fresh("qa")
-	r.assumeGlobal(fmt.Sprintf("(forall ((%s Int)) (! (=> (and (<= 0 %s) (< %s %s)) (= (select %s %s) (select (select %s (s_arr %s)) (+ (s_off %s) %s)))) :pattern ((select %s %s))))",
-		q, q, q, la, arr, q, h, a.S, a.S, q, arr, q))
-	q2 := r.fresh("qb")
-	r.assumeGlobal(fmt.Sprintf("(forall ((%s Int)) (! (=> (and (<= 0 %s) (< %s %s)) (= (select %s (+ %s %s)) (select (select %s (s_arr %s)) (+ (s_off %s) %s)))) :pattern ((select (select %s (s_arr %s)) (+ (s_off %s) %s)))))",
-		q2, q2, q2, lb, arr, la, q2, h, b.S, b.S, q2, h, b.S, b.S, q2))
-	// second form of the same fact, triggered from the destination side
-	q3 := r.fresh("qc")
-	r.assumeGlobal(fmt.Sprintf("(forall ((%s Int)) (! (=> (and (<= %s %s) (< %s %s)) (= (select %s %s) (select (select %s (s_arr %s)) (+ (s_off %s) (- %s %s))))) :pattern ((select %s %s))))",
-		q3, la, q3, q3, newLen, arr, q3, h, b.S, b.S, q3, la, arr, q3))
+	r.assumeBGIn(st, fmt.Sprintf("(forall ((%s Int)) (! (=> (and (<= 0 %s) (< %s %s)) (= (select %s %s) (select %s (+ (s_off %s) %s)))) :pattern ((select %s %s))))",
+		q, q, q, la, arr0, q, base, a.S, q, arr0, q))
+	var arr string
+	if n, ok := literalSliceLen(c.Args[1]); ok && n <= 32 {
+		// appended elements come from a small literal array: plain stores
+		arr = arr0
+		for j := 0; j < n; j++ {
+			arr = app("store", arr, add(la, num(int64(j))), app("select", app("select", h, app("s_arr", b.S)), add(app("s_off", b.S), num(int64(j)))))
+		}
+		arr = r.define("apparr", asort, arr)
+	} else {
+		arr = r.declare("apparr", asort)
+		q2 := r.fresh("qb")
+		r.assumeBGIn(st, fmt.Sprintf("(forall ((%s Int)) (! (= (select %s %s) (ite (and (<= %s %s) (< %s %s)) (select (select %s (s_arr %s)) (+ (s_off %s) (- %s %s))) (select %s %s))) :pattern ((select %s %s))))",
+			q2, arr, q2, la, q2, q2, newLen, h, b.S, b.S, q2, la, arr0, q2, arr, q2))
+	}
 	r.heapSet(st, name, app("store", h, ref, arr))
 	return res
+}
+
+// literalSliceLen: the argument is a[:] of a local array literal of known length.
+func literalSliceLen(v ssa.Value) (int, bool) {
+	sl, ok := v.(*ssa.Slice)
+	if !ok || sl.Low != nil || sl.High != nil || sl.Max != nil {
+		return 0, false
+	}
+	al, ok := sl.X.(*ssa.Alloc)
+	if !ok {
+		return 0, false
+	}
+	at, ok := al.Type().(*types.Pointer).Elem().Underlying().(*types.Array)
+	if !ok {
+		return 0, false
+	}
+	return int(at.Len()), true
 }
 
 func (fr *Frame) copyAggregateElems(st *State, et types.Type, dstArr, dstOff, src, n string) {
@@ -629,11 +660,11 @@ func (fr *Frame) copyAggregateElems(st *State, et types.Type, dstArr, dstOff, sr
 		nh := r.declare(name, r.heapSort[name])
 		q := r.fresh("qe")
 		// copied elements
-		r.assumeGlobal(fmt.Sprintf("(forall ((%s Int)) (! (=> (and (<= 0 %s) (< %s %s)) (= (select %s (elemref %s (+ %s %s))) (select %s (elemref (s_arr %s) (+ (s_off %s) %s))))) :pattern ((select %s (elemref %s (+ %s %s))))))",
+		r.assumeBGIn(st, fmt.Sprintf("(forall ((%s Int)) (! (=> (and (<= 0 %s) (< %s %s)) (= (select %s (elemref %s (+ %s %s))) (select %s (elemref (s_arr %s) (+ (s_off %s) %s))))) :pattern ((select %s (elemref %s (+ %s %s))))))",
 			q, q, q, n, nh, dstArr, dstOff, q, h, src, src, q, nh, dstArr, dstOff, q))
 		// frame: everything that is not an element of the destination array keeps its value
 		p := r.fresh("qp")
-		r.assumeGlobal(fmt.Sprintf("(forall ((%s Int)) (! (=> (not (and (= (refkind %s) 1) (= (elem_arr %s) %s))) (= (select %s %s) (select %s %s))) :pattern ((select %s %s))))",
+		r.assumeBGIn(st, fmt.Sprintf("(forall ((%s Int)) (! (=> (not (and (= (refkind %s) 1) (= (elem_arr %s) %s))) (= (select %s %s) (select %s %s))) :pattern ((select %s %s))))",
 			p, p, p, dstArr, nh, p, h, p, nh, p))
 		r.heapWF(nh, r.heapSort[name], ft, st.frontier)
 		st.heaps[name] = nh
@@ -669,12 +700,14 @@ func (fr *Frame) copyOp(st *State, c *ssa.CallCommon) Val {
 	}
 	name, h := r.elemHeap(st, et)
 	es := s.sortOf(et)
+	d.S = r.constOf("cpd", SSlice, d.S)
+	sv.S = r.constOf("cps", SSlice, sv.S)
 	arr := r.declare("copyarr", "(Array Int "+es+")")
 	q := r.fresh("qc")
 	doff, soff := app("s_off", d.S), app("s_off", sv.S)
 	oldD := app("select", h, app("s_arr", d.S))
 	oldS := app("select", h, app("s_arr", sv.S))
-	r.assumeGlobal(fmt.Sprintf("(forall ((%s Int)) (! (= (select %s %s) (ite (and (<= %s %s) (< %s (+ %s %s))) (select %s (+ %s (- %s %s))) (select %s %s))) :pattern ((select %s %s))))",
+	r.assumeBGIn(st, fmt.Sprintf("(forall ((%s Int)) (! (= (select %s %s) (ite (and (<= %s %s) (< %s (+ %s %s))) (select %s (+ %s (- %s %s))) (select %s %s))) :pattern ((select %s %s))))",
 		q, arr, q, doff, q, q, doff, n, oldS, soff, q, doff, oldD, q, arr, q))
 	r.heapSet(st, name, app("store", h, app("s_arr", d.S), arr))
 	return TV{n, SInt, it}
@@ -804,7 +837,7 @@ func (fr *Frame) siteAsserts(st *State, c *ssa.CallCommon, kind string) {
 			continue
 		}
 		ss.matched++
-		cx := fr.newCtx(st, nil, true)
+		cx := fr.newCtx(st, fr.curRec, true)
 		cx.binds = map[string]Val{}
 		for k, v := range fr.params {
 			cx.binds[k] = v
@@ -827,6 +860,7 @@ func (fr *Frame) siteAsserts(st *State, c *ssa.CallCommon, kind string) {
 			label = fmt.Sprintf("%s", name)
 		}
 		fr.run.oblige(st, "assert@call", label, ss.Clause.Text, f)
+		fr.run.assume(st, f) // proved here, usable afterwards
 	}
 }
 
@@ -839,7 +873,7 @@ func (fr *Frame) siteGeneric(st *State, kind, name string, extra map[string]Val)
 			continue
 		}
 		ss.matched++
-		cx := fr.newCtx(st, nil, true)
+		cx := fr.newCtx(st, fr.curRec, true)
 		cx.binds = map[string]Val{}
 		for k, v := range fr.params {
 			cx.binds[k] = v
@@ -853,6 +887,7 @@ func (fr *Frame) siteGeneric(st *State, kind, name string, extra map[string]Val)
 			continue
 		}
 		fr.run.oblige(st, "assert@"+kind, labelOr(ss.Clause, 0), ss.Clause.Text, f)
+		fr.run.assume(st, f) // proved here, usable afterwards
 	}
 }
 
